@@ -12,7 +12,9 @@ from vf.bounded import Tally
 from vf.pyvc import extract
 
 MOD = "debian.deb822"
-KEYS = ["a", "A", "b", "B", "c", "Xy", "xY", "XY", "Vcs_Git", "VcsBrowser", "vcs-git", "a_b", "aB", "a^"]
+KEYS = ["a", "A", "b", "B", "c", "Xy", "xY", "XY", "Vcs_Git", "VcsBrowser", "vcs-git", "a_b", "aB", "a^",
+        # characters next to the letters in ASCII are not case variants of each other; case variants may differ in length
+        "X-Cfg[", "X-Cfg{", "x-cfg[", "X@", "X`", "\u0130ndex", "i\u0307ndex"]
 
 
 def find(model, k):
